@@ -1637,4 +1637,3 @@ func foldLeft(op func(value, value) value, args []value) value {
 	}
 	return x
 }
-
